@@ -76,6 +76,59 @@ func Schemata(p *core.Prog, r *core.Report) {
 			}
 		})
 	}
+	// (a'') merges carry over every entry of the operand: an append to the receiver's list inside a loop over
+	// another result's list depends on nothing but the loop and the nil tests of the lists
+	nCarry := 0
+	for _, f := range p.Funcs {
+		if !p.InSubject(f) {
+			continue
+		}
+		fn := core.FuncName(f)
+		core.EachInstr(f, func(i ssa.Instruction) {
+			c, ok := i.(*ssa.Call)
+			if !ok {
+				return
+			}
+			b, ok := c.Call.Value.(*ssa.Builtin)
+			if !ok || b.Name() != "append" {
+				return
+			}
+			pth, ok := core.StablePath(c.Call.Args[0])
+			if !ok || !(strings.HasSuffix(pth, ".fieldSchemata") || strings.HasSuffix(pth, ".itemSchemata")) {
+				return
+			}
+			// inside a loop over the same kind of list of another object?
+			inCopyLoop := false
+			for _, cd := range core.ControlConds(c.Block()) {
+				if strings.Contains(condAtom(cd), "ok(") || loopCond(cd.If.Block(), cd.Value) {
+					inCopyLoop = true
+				}
+			}
+			if !inCopyLoop {
+				return
+			}
+			nCarry++
+			var bad []string
+			for _, cd := range core.ControlConds(c.Block()) {
+				a := condAtom(cd)
+				if strings.Contains(a, "ok(") || loopCond(cd.If.Block(), cd.Value) || strings.HasSuffix(a, "Schemata != nil") || strings.HasSuffix(a, "Schemata == nil") || strings.Contains(a, "len(") {
+					continue
+				}
+				if strings.HasPrefix(a, "arg") && (strings.HasSuffix(a, "!= nil") || strings.HasSuffix(a, "== nil")) {
+					continue // nil operand
+				}
+				bad = append(bad, a)
+			}
+			key := fmt.Sprintf("carry-over:%s:%s", fn, pth[strings.LastIndex(pth, ".")+1:])
+			if len(bad) > 0 {
+				r.Bad(rule, key, p.Pos(c.Pos()), "an entry of the merged result's schemata is carried over only when "+strings.Join(bad, " and ")+": the members filtered out lose their schemata (never defaulted, pruned although described)")
+			} else {
+				r.OK(rule, key, p.Pos(c.Pos()), "every entry of the operand is carried over")
+			}
+		})
+	}
+	r.Count("schemata_carry_over_loops", nCarry)
+	r.Floor("schemata_carry_over_loops", 2)
 	r.Count("schemata_accessor_writes", nAcc)
 	r.Floor("schemata_accessor_writes", 4)
 	r.Count("schemata_list_stores", nSt)
